@@ -82,6 +82,12 @@ fn serialize_object(
             return Err(Amf0SerializationError::NormalStringTooLong);
         }
 
+        // An empty name followed by the end marker is how an object is terminated, so a
+        // property with an empty name can not be written (and is rejected when read).
+        if name.is_empty() {
+            return Err(Amf0SerializationError::EmptyObjectPropertyName);
+        }
+
         bytes.write_u16::<BigEndian>(name.len() as u16)?;
         bytes.extend(name.as_bytes());
         serialize_value(&value, bytes, depth + 1)?;
